@@ -74,3 +74,37 @@ func (m *Mutex) TryLock() bool {
 	}
 	return m.mu.TryLock()
 }
+
+// ---- the rest of package sync's API, so that the one-line import rewrite keeps compiling whatever
+// group_mutex.go (or a changed version of it) uses. Only the lock types are scheduler-aware.
+
+type (
+	Map       = sync.Map
+	Once      = sync.Once
+	WaitGroup = sync.WaitGroup
+	Pool      = sync.Pool
+	Cond      = sync.Cond
+	Locker    = sync.Locker
+)
+
+func NewCond(l Locker) *Cond { return sync.NewCond(l) }
+func OnceFunc(f func()) func() { return sync.OnceFunc(f) }
+func OnceValue[T any](f func() T) func() T { return sync.OnceValue(f) }
+func OnceValues[T1, T2 any](f func() (T1, T2)) func() (T1, T2) { return sync.OnceValues(f) }
+
+// RWMutex: readers are treated as writers (exclusive). Under the cooperative scheduler this only
+// removes reader/reader overlap, which cannot change what a reader observes.
+type RWMutex struct{ m Mutex }
+
+func (rw *RWMutex) Lock()          { rw.m.Lock() }
+func (rw *RWMutex) Unlock()        { rw.m.Unlock() }
+func (rw *RWMutex) RLock()         { rw.m.Lock() }
+func (rw *RWMutex) RUnlock()       { rw.m.Unlock() }
+func (rw *RWMutex) TryLock() bool  { return rw.m.TryLock() }
+func (rw *RWMutex) TryRLock() bool { return rw.m.TryLock() }
+func (rw *RWMutex) RLocker() Locker { return rlocker{rw} }
+
+type rlocker struct{ rw *RWMutex }
+
+func (r rlocker) Lock()   { r.rw.RLock() }
+func (r rlocker) Unlock() { r.rw.RUnlock() }
